@@ -166,6 +166,21 @@ def rule_b(repo, res, m, meth, where):
     getv = meth["SerDes"].get("_get_context_value")
     ok = getv is not None and any(isinstance(x, ast.Raise) and isinstance(x.exc, ast.Call) and dotted(x.exc.func) == "ReusedTargetError" for x in ast.walk(getv)) and any(isinstance(x, ast.Raise) and isinstance(x.exc, ast.Call) and dotted(x.exc.func) == "ListTargetExhaustedError" for x in ast.walk(getv))
     res.check(ok, "C21.b", "_get_context_value:refuses-reuse-and-exhaustion", "%s:SerDes._get_context_value" % where, "reading a used target / an exhausted list must raise", by="raises ReusedTargetError / ListTargetExhaustedError")
+    # the "used" mark precedes the lookup that may fail: Serialiser._get_context_value catches the KeyError of a
+    # missing value and substitutes the default, so a mark placed after the lookup is skipped exactly when a
+    # default is used and the target can then be consumed again
+    ok = False
+    det = "branch `if target not in self._cur_context_indices` not found"
+    if getv is not None:
+        tp = getv.args.args[1].arg
+        for n in ast.walk(getv):
+            if isinstance(n, ast.If) and isinstance(n.test, ast.Compare) and isinstance(n.test.ops[0], ast.NotIn) and dotted(n.test.left) == tp and norm(n.test.comparators[0]) == "self._cur_context_indices":
+                first = n.body[0]
+                ok = isinstance(first, ast.Assign) and norm(first.targets[0]) == "self._cur_context_indices[%s]" % tp and isinstance(first.value, ast.Constant) and first.value.value is True
+                det = "in the not-yet-used branch the first statement is `%s`; the target must be marked used (self._cur_context_indices[target] = True) before self.cur_context[target] is read, because the serialiser turns the KeyError of a missing value into its default and would otherwise never mark the target" % short(first, 60)
+    sget = meth.get("Serialiser", {}).get("_get_context_value")
+    catches = sget is not None and any(isinstance(h, ast.ExceptHandler) and h.type is not None and "KeyError" in norm(h.type) for h in ast.walk(sget))
+    res.check(ok or not catches, "C21.b", "_get_context_value:marked-before-lookup", "%s:SerDes._get_context_value" % where, det, by="marked used before the lookup that may raise KeyError")
 
 
 def rule_c(repo, res, m, meth, where):
